@@ -219,7 +219,7 @@ class Rewriter:
             return p
         want = {
             "map": 2, "map_or": 3, "map_or_else": 3, "and_then": 2, "unwrap_or_else": 2, "filter": 2, "flatten": 1, "map_err": 2,
-            "ok": 1, "ok_or": 2,
+            "ok": 1, "ok_or": 2, "ok_or_else": 2,
         }
         if name not in want or len(args) != want[name]:
             return False
@@ -242,7 +242,21 @@ class Rewriter:
             self.blocks[bn]["stmts"].append(_assign(_pl(dest), {"agg": {"adt": "std::result::Result", "variant": "Err", "vidx": 1, "local": False}, "ops": [args[1]]}, line))
             self.blocks[bn]["term"] = {"k": "goto", "to": after}
             return True
-        if name in ("ok", "ok_or"):
+        if name == "ok_or_else" and is_opt:
+            # Option::ok_or_else(f): Some(v) -> Ok(v), None -> Err(f())
+            cbe = self.callable_of(args[1])
+            if cbe is None:
+                return False
+            bs, bn = switch_on_subject()
+            v = payload(bs, "Some", 1, "?")
+            self.blocks[bs]["stmts"].append(_assign(_pl(dest), {"agg": {"adt": "std::result::Result", "variant": "Ok", "vidx": 0, "local": False}, "ops": [_mv(v)]}, line))
+            self.blocks[bs]["term"] = {"k": "goto", "to": after}
+            e = self.new_local(self.ret_ty(cbe))
+            fin = self.new_block(line, [_assign(_pl(dest), {"agg": {"adt": "std::result::Result", "variant": "Err", "vidx": 1, "local": False}, "ops": [_mv(e)]}, line)],
+                                 {"k": "goto", "to": after})
+            self.blocks[bn]["term"] = self.call_callable(cbe, [], e, fin, line, self.blocks[bn]["stmts"])
+            return True
+        if name in ("ok", "ok_or", "ok_or_else"):
             return False
         if name == "flatten":
             if not is_opt:
@@ -1144,7 +1158,7 @@ def normalise(F):
             if t["k"] == "call" and "indirect" not in t["callee"]:
                 n = t["callee"].get("name")
                 if n in Rewriter.SINKS or n in Rewriter.STAGES or n in Rewriter.PREFILTER or n in ("map", "map_or", "map_or_else", "and_then", "unwrap_or_else", "filter", "flatten",
-                                                "map_err", "then", "then_some", "call", "call_mut", "call_once", "ok", "ok_or", "branch"):
+                                                "map_err", "then", "then_some", "call", "call_mut", "call_once", "ok", "ok_or", "ok_or_else", "branch"):
                     has = True
                     break
         if not has:
